@@ -29,6 +29,14 @@ operand sharing of ufl/exprequals.py; per-terminal-class projection table).
     identity and equality class of every returned object; they are replayed on the real constructors: == must
     be exactly the predicted classes, equal objects agree on hash / repr / value / signature, objects returned
     earlier are unchanged by later calls, every object survives pickle and eval(repr(.)).
+    The same universe holds the constructor calls of the other classes with a flyweight cache -- Zero(shape, free indices,
+    index dimensions) (cached per shape when there are no free indices) and MultiIndex (cached per tuple of fixed indices) --
+    and ROUND TRIPS (pickle with any protocol >= 2 / copy.copy / copy.deepcopy, eval(repr(.))) of objects returned by earlier
+    calls as steps of a behaviour: unpickling is modelled as coded (cls.__new__ on __getnewargs__() THROUGH the caches, then the
+    saved slots are written onto whatever __new__ returned), so the spec predicts identity and equality class of the restored
+    object and that no object returned earlier and no existing flyweight (the ambient zeros / multi-indices of the shapes in
+    use) changes.  Which classes' __getnewargs__ hands over all constructor arguments is PROBED; for the probed set TLC's
+    counterexample (a restored object that IS a shared flyweight, overwritten with foreign free indices) is replayed.
 """
 
 from __future__ import annotations
@@ -1961,7 +1969,8 @@ def literals(ctx, futs):
             docs = _spread(docs, limit)
         if not docs:
             raise MachineryError(f"TLC produced no literal behaviours ({name})")
-        hits = sum(1 for d in docs for i, s in enumerate(d["steps"], start=1) if s["id"] < i and s["cls"] == "IntValue")
+        # calls that return an existing flyweight: of IntValue in every exhaustive plan, of any class in the random sample
+        hits = sum(1 for d in docs for i, s in enumerate(d["steps"], start=1) if s["id"] != i and (s["cls"] == "IntValue" or limit is not None))
         mixed = sum(1 for d in docs for a, b in itertools.combinations(d["steps"], 2)
                     if a["eqc"] == b["eqc"] and a["src"] != b["src"] and a["cls"] != "Zero")
         if not hits or not mixed:
@@ -2194,7 +2203,8 @@ def run(ctx, args):
         "Literal mode: TLC enumerates every pair (thorough: also triple) of constructor calls about the same number, and seeded random "
         "sequences of 8 calls, over the universe api x argument type x number (see coverage.literal_call_universe); the replay picks "
         "concrete numbers (both signs, 99/100 at the flyweight bound) and numpy dtypes from the seed; a behaviour is non-trivial when two "
-        "calls that differ in api or argument type are predicted to return equal objects"
+        "calls that differ in api or argument type are predicted to return equal objects; the calls include Zero / MultiIndex "
+        "constructor calls (shape x free indices) and pickle / eval(repr) round trips of objects returned by earlier steps"
     )
     ctx.assume("elements are user objects: the check's own picklable Elem class with evaluable repr stands for them")
     ctx.assume("eval(repr(x)) is evaluated in a namespace holding `from ufl import *`, `from ufl.classes import *`, MeshSequence, Elem, Tag")
@@ -2213,6 +2223,10 @@ def run(ctx, args):
                "the replay takes them out of IntValue._cache before and puts the previous entries back afterwards; identity (`is`) of "
                "literals and the predicted Python type of the stored value are recorded (coverage counters), only ==/hash/repr/value/"
                "signature/round trips are judged")
+    ctx.assume("literals: a behaviour starts with the index-free Zero of each shape and the all-fixed MultiIndex of each tuple it uses "
+               "already created (the replay creates them first); copy.copy / copy.deepcopy are taken as surfaces of the pickle round trip "
+               "(they run the same __reduce_ex__ protocol); pickle protocols 0 and 1 are left out (Python refuses them for classes "
+               "with __slots__ and no __getstate__)")
     lit_runs = literals_start(ctx)
     # (c)
     rows = sweep(ctx)
